@@ -22,14 +22,15 @@
 (* binder of that name, a clash with an enclosing binder is an error, an   *)
 (* unbound name is an error).  TLC checks that the nine rewrites, under    *)
 (* the side conditions the harness enforces (fresh name that occurs        *)
-(* nowhere; binder not part of a clash; annotation = exactly the inferred  *)
+(* nowhere; binder not part of a clash BY THIS READING -- not by what the  *)
+(* checker under test reports; annotation = exactly the inferred           *)
 (* type; the moved class is not private), are stuttering steps of the      *)
 (* summary -- and that dropping the freshness side condition is not        *)
 (* (config RewritesMCcapture.cfg must FAIL: renaming can capture).         *)
 (* spec/RewritesTrace.tla checks the same action property on histories     *)
 (* recorded from the real compiler.                                        *)
 (***************************************************************************)
-EXTENDS Integers, Sequences, FiniteSets, TLC
+EXTENDS Integers, Sequences, FiniteSets, TLC, RewritesNames
 
 CONSTANTS
   Names,          \* identifiers
@@ -69,16 +70,12 @@ Kinds == {"RenameLocal", "ReorderToplevels", "ReorderMembers", "Parenthesise", "
           "AnnotateLet", "ExplicitTypeArgs", "SplitModule", "AnnotateLambda"}
 
 \* ---- the reference reading of a program -------------------------------------------------
-RECURSIVE Chain(_)
-\* the binders enclosing a position, innermost first
-Chain(b) == IF b = 0 THEN <<>> ELSE <<b>> \o Chain(Parent[b])
-RECURSIVE FirstNamed(_, _, _)
-FirstNamed(bn, ch, n) ==
-  IF ch = <<>> THEN 0 ELSE IF bn[Head(ch)] = n THEN Head(ch) ELSE FirstNamed(bn, Tail(ch), n)
+\* the reading itself is RewritesNames.tla (shared with the reading of real programs)
+Chain(b) == ChainOf(Parent, b)
 \* ssa_analysis.rs: a use refers to the innermost enclosing binder of that name (0: unbound)
-Resolve(bn, un, u) == FirstNamed(bn, Chain(ScopeOf[u]), un[u])
+Resolve(bn, un, u) == ResolveIn(Parent, ScopeOf, bn, un, u)
 \* ssa_analysis.rs define_id: a binder may not reuse the name of an enclosing binder
-Clashing(bn) == { b \in Binders : FirstNamed(bn, Chain(Parent[b]), bn[b]) # 0 }
+Clashing(bn) == ClashingIn(Parent, Binders, bn)
 Unbound(bn, un) == { u \in Uses : Resolve(bn, un, u) = 0 }
 
 ErrorCount(bn, un, te) == te + Cardinality(Clashing(bn)) + Cardinality(Unbound(bn, un))
@@ -117,12 +114,11 @@ Step(k) == steps < MaxChain /\ steps' = steps + 1 /\ last' = k
 \* consistently rename binder b and exactly the uses that resolve to it
 RenameLocal(b, n) ==
   /\ Step("RenameLocal")
-  /\ b \notin Clashing(bname)
-  /\ bname[b] \notin { bname[c] : c \in Clashing(bname) }
+  /\ RenameableIn(Parent, Binders, bname, b)
   /\ n # bname[b]
   /\ SafeRename => n \notin Occurring
   /\ bname' = [bname EXCEPT ![b] = n]
-  /\ uname' = [u \in Uses |-> IF Resolve(bname, uname, u) = b THEN n ELSE uname[u]]
+  /\ uname' = [u \in Uses |-> IF u \in OccurrencesIn(Parent, ScopeOf, Uses, bname, uname, b) THEN n ELSE uname[u]]
   /\ UNCHANGED <<typeErrs, order, morder, home, parens, blocks, annotated, explicit, lamAnnot>>
   /\ Summarise(bname', uname', typeErrs)
 
